@@ -131,6 +131,15 @@ func c15Job(raw json.RawMessage) (interface{}, error) {
 						off += uint64(rr.Count)
 						wrote += uint64(rr.Count)
 					}
+					// a write that ran out of space part-way (an index block may have been taken and given back in the
+					// same transaction): allocator and bitmap must agree right now, not only once the disk is full
+					vrt.Quiesce()
+					for _, e := range w.Audit(w.Fsck()) {
+						if rl := ruleOf(e); rl == "balloc-differs-from-disk" || rl == "ialloc-differs-from-disk" {
+							viol("fill|short-write|"+rl, fmt.Sprintf("after %s returned status %d count %d: %s", fsx.Op{K: "WRITE", H: "root/" + fn, Off: off - uint64(rr.Count), Cnt: n}, rr.Status, rr.Count, e))
+							return
+						}
+					}
 					// single blocks to use the very last ones this file can still take
 					for k := 0; k < 70; k++ {
 						r1, _, _ := w.Do(fsx.Op{K: "WRITE", H: "root/" + fn, Off: off, Cnt: 4096, Pat: byte(nfile), Stable: 0})
